@@ -494,51 +494,66 @@ func c09RaceMain(t *testing.T) {
 	deadline := time.UnixMilli(dl)
 	seen := map[string]bool{}
 	runs, mismatches, items := 0, 0, 0
-	// every level-2 block and a deterministic stride of the level-1 programs
-	for _, ph := range plan {
-		for i, it := range ph.Items {
-			key := fmt.Sprintf("%d/%v/%v", it.Level, it.Prog, it.Block)
-			if seen[key] {
-				continue
-			}
-			seen[key] = true
-			if it.Level == 1 && !(it.Prog.conflicts() && i%11 == 0) {
-				continue
-			}
-			if it.Level == 2 && len(it.Block.Txs) == 3 && i%3 != 0 {
-				continue
-			}
-			// the first 150 items are run whatever the clock says (a loaded machine
-			// must not turn the pass into a no-op)
-			if items >= 150 && time.Now().After(deadline) {
-				fmt.Printf("RACE-PASS-CAPPED after %d items\n", items)
-				goto done
-			}
-			items++
-			reps := 3
-			for k := 0; k < reps; k++ {
-				var want, got string
-				if it.Level == 1 {
-					env := r.envL1()
-					want = l1Sequential(env, it.Prog).key()
-					got = l1FreeRun(env, it.Prog).key()
-				} else {
-					env := r.envL2()
-					txs := it.Block.build(env)
-					want = env.exec(txs, 1).key()
-					got = env.exec(txs, it.Block.Conc).key()
+	// level-2 blocks first (they run the dispatcher of transition_pe.go), then a
+	// deterministic stride of the conflicting level-1 programs
+	var cands []c09Item
+	for _, lvl := range []int{2, 1} {
+		for _, ph := range plan {
+			for i, it := range ph.Items {
+				if it.Level != lvl {
+					continue
 				}
-				runs++
+				key := fmt.Sprintf("%d/%v/%v", it.Level, it.Prog, it.Block)
+				if seen[key] {
+					continue
+				}
+				seen[key] = true
+				if it.Level == 1 && !(it.Prog.conflicts() && i%11 == 0) {
+					continue
+				}
+				if it.Level == 2 && len(it.Block.Txs) == 3 && i%3 != 0 {
+					continue
+				}
+				cands = append(cands, it)
+			}
+		}
+	}
+	for _, it := range cands {
+		// the first 150 items are run whatever the clock says (a loaded machine
+		// must not turn the pass into a no-op)
+		if items >= 150 && time.Now().After(deadline) {
+			fmt.Printf("RACE-PASS-CAPPED after %d of %d items\n", items, len(cands))
+			break
+		}
+		items++
+		for k := 0; k < 3; k++ {
+			var want, got, sig string
+			if it.Level == 1 {
+				env := r.envL1()
+				seq := l1Sequential(env, it.Prog)
+				obs := l1FreeRun(env, it.Prog)
+				want, got = seq.key(), obs.key()
 				if got != want {
-					mismatches++
-					if mismatches <= 3 {
-						fmt.Printf("RACE-PASS-MISMATCH %s\n sequential: %s\n concurrent: %s\n", it, want, got)
-					}
+					sig = "L1:differs-from-sequential:" + l1Diagnose(it.Prog, seq, obs)
+				}
+			} else {
+				env := r.envL2()
+				txs := it.Block.build(env)
+				want = env.exec(txs, 1).key()
+				got = env.exec(txs, it.Block.Conc).key()
+				if got != want {
+					sig = "L2:differs-from-sequential:" + it.Block.String()
+				}
+			}
+			runs++
+			if sig != "" {
+				mismatches++
+				if mismatches <= 5 {
+					fmt.Printf("RACE-PASS-MISMATCH sig=%s\n case: %s (free-running)\n sequential: %s\n concurrent: %s\nRACE-PASS-MISMATCH-END\n", sig, it, want, got)
 				}
 			}
 		}
 	}
-done:
 	fmt.Printf("RACE-PASS items=%d runs=%d mismatches=%d\n", items, runs, mismatches)
 }
 
@@ -577,12 +592,22 @@ func c09StartRacePass(deadline time.Time) func() (summary string, races int, mis
 				summary += ln + " "
 			}
 		}
-		if i := bytes.Index(r.out, []byte("RACE-PASS-MISMATCH")); i >= 0 {
-			mismatch = string(r.out[i:minInt(len(r.out), i+1200)])
+		rest := r.out
+		for {
+			i := bytes.Index(rest, []byte("RACE-PASS-MISMATCH sig="))
+			if i < 0 {
+				break
+			}
+			j := bytes.Index(rest[i:], []byte("RACE-PASS-MISMATCH-END"))
+			if j < 0 {
+				j = minInt(len(rest)-i, 1500)
+			}
+			mismatch += string(rest[i:i+j]) + "\x00"
+			rest = rest[i+j:]
 		}
 		if races > 0 {
 			i := bytes.Index(r.out, []byte("WARNING: DATA RACE"))
-			mismatch += string(r.out[i:minInt(len(r.out), i+3000)])
+			mismatch = "DATA RACE\n" + string(r.out[i:minInt(len(r.out), i+3000)])
 		}
 		if r.err != nil && races == 0 && summary == "" {
 			tail := r.out
@@ -773,7 +798,13 @@ func TestVerifC09(t *testing.T) {
 	if races > 0 {
 		r.Violation("race-pass:data-race", "the Go race detector reported a data race in the free-running pass of the same bodies:\n"+mismatch, nil)
 	} else if mismatch != "" {
-		r.Violation("race-pass:differs-from-sequential", "free-running execution differs from sequential execution:\n"+mismatch, nil)
+		for _, m := range strings.Split(mismatch, "\x00") {
+			if !strings.HasPrefix(m, "RACE-PASS-MISMATCH sig=") {
+				continue
+			}
+			sig := strings.TrimPrefix(strings.SplitN(m, "\n", 2)[0], "RACE-PASS-MISMATCH sig=")
+			r.Violation(sig, "free-running execution (native goroutines, -race build) differs from sequential execution:\n"+m, nil)
+		}
 	}
 	if summary == "" && err == nil {
 		harness = append(harness, "race pass produced no summary")
